@@ -547,8 +547,11 @@ func (r *Recomposer) setValue(v any, rv reflect.Value, sf *reflect.StructField) 
 	case reflect.Int, reflect.Int8, reflect.Int16, reflect.Int32, reflect.Int64,
 		reflect.Uint, reflect.Uint8, reflect.Uint16, reflect.Uint32, reflect.Uint64:
 		if s, ok := v.(string); ok && sf != nil && strings.Contains(sf.Tag.Get("json"), ",string") {
-			if i, err := strconv.Atoi(s); err == nil {
+			if i, err := strconv.ParseInt(s, 10, 64); err == nil {
 				rv.Set(reflect.ValueOf(i).Convert(rv.Type()))
+			} else if u, uerr := strconv.ParseUint(s, 10, 64); uerr == nil && rv.CanUint() {
+				// An unsigned value above math.MaxInt64.
+				rv.SetUint(u)
 			} else {
 				panic(err)
 			}
